@@ -204,11 +204,17 @@ def gen_ctl_case(rng):
             ops.append({"kind": "insert", "host": h, "qtype": qt, "scope": sc, "ips": ips, "ttl": rng.choice([1, 2, 60, 300])})
         elif r < 0.75:
             ops.append({"kind": "remove", "host": h, "qtype": qt, "scope": sc})
-        elif r < 0.85:
+        elif r < 0.82:
             ops.append({"kind": "family", "host": h, "qtype": qt})
-        else:
+        elif r < 0.92:
             ops.append({"kind": "janitor", "at_sec": rng.choice([0, 1, 3, 100, 1000])})
-    return {"bitmaps": bitmaps, "max_cache_size": rng.choice([0, 0, 1, 2, 3]), "ops": ops}
+        else:
+            ops.append({"kind": "reload"})
+    bitmaps2 = {}
+    for h in HOSTS:
+        fq = (h if h.endswith(".") else h + ".").lower()
+        bitmaps2[fq] = "%x" % rng.choice(BITMAPS)
+    return {"bitmaps": bitmaps, "bitmaps2": bitmaps2, "max_cache_size": rng.choice([0, 0, 1, 2, 3]), "ops": ops}
 
 
 def run_ctl_batch(sc, binary, cases, tag):
